@@ -574,6 +574,8 @@ _ADD = {
             " PARKRESTORE: typestate with trace partitioning over the parked-byte marker of the text iterator: the marker is dropped only after the parked byte was put back or the marker was tested null. TYPEMAP (see C06) for the id -> size switch of mpt_iterator_consume."),
     "C20": ([], " ERRFX now also covers the helpers a setter hands a pointer into its object to (colour, attribute, string and position parsers): calls of writers whose result is discarded count as stores, and calls that only inspect their arguments (strlen, strncasecmp, isspace ..) do not excuse a store made before them."),
 }
+# option values are kept by the generic-info metatype: its size computation belongs to "values of any length"
+PROPS["C09"].setdefault("extra_scope_files", []).append("mptcore/misc/geninfo.c")
 for _pid, (_rules, _text) in _ADD.items():
     PROPS[_pid]["rules"] += _rules
     PROPS[_pid]["explanation"] += _text
